@@ -73,17 +73,19 @@ class TriggerContext:
 
     def __exit__(self, exception_type, exception_value, exception_traceback):
         """Complete the 'with' statement, and close this context."""
-        for result in self.__results:
-            try:
-                new_callback = result.process(self)
-                if new_callback is not None:
-                    self.callbacks.append(new_callback)
-            except Exception:
-                deep.logging.exception("failed to process result {}", result)
-        # the results point at their action contexts, which point back at us (and so at the frame): let go of them, else
-        # this cycle keeps the paused frame's values alive until the next garbage collection and the application's
-        # objects are finalised later than they are without us
-        self.__results = []
+        try:
+            for result in self.__results:
+                try:
+                    new_callback = result.process(self)
+                    if new_callback is not None:
+                        self.callbacks.append(new_callback)
+                except Exception:
+                    deep.logging.exception("failed to process result {}", result)
+        finally:
+            # the results point at their action contexts, which point back at us (and so at the frame): let go of them,
+            # else this cycle keeps the paused frame's values alive until the next garbage collection and the
+            # application's objects are finalised later than they are without us
+            self.__results = []
 
     @property
     def id(self):
